@@ -26,17 +26,17 @@ type Term struct {
 }
 
 func tConstNum(r *big.Rat) *Term { return &Term{Op: "const", Val: r.RatString(), Num: true} }
-func tConstInt(i int64) *Term  { return tConstNum(new(big.Rat).SetInt64(i)) }
-func tConstStr(s string) *Term { return &Term{Op: "const", Val: fmt.Sprintf("%q", s), Str: true} }
-func tConstBool(b bool) *Term  { return &Term{Op: "const", Val: fmt.Sprint(b), Bool: true} }
-func tNil() *Term              { return &Term{Op: "const", Val: "nil"} }
-func tSym(name string) *Term   { return &Term{Op: "sym", Val: name} }
+func tConstInt(i int64) *Term    { return tConstNum(new(big.Rat).SetInt64(i)) }
+func tConstStr(s string) *Term   { return &Term{Op: "const", Val: fmt.Sprintf("%q", s), Str: true} }
+func tConstBool(b bool) *Term    { return &Term{Op: "const", Val: fmt.Sprint(b), Bool: true} }
+func tNil() *Term                { return &Term{Op: "const", Val: "nil"} }
+func tSym(name string) *Term     { return &Term{Op: "sym", Val: name} }
 func tCall(name string, args ...*Term) *Term {
 	return &Term{Op: "call", Val: name, Args: args}
 }
-func tNot(a *Term) *Term       { return &Term{Op: "not", Args: []*Term{a}, Bool: true} }
-func tAnd(a, b *Term) *Term    { return &Term{Op: "and", Args: []*Term{a, b}, Bool: true} }
-func tOr(a, b *Term) *Term     { return &Term{Op: "or", Args: []*Term{a, b}, Bool: true} }
+func tNot(a *Term) *Term    { return &Term{Op: "not", Args: []*Term{a}, Bool: true} }
+func tAnd(a, b *Term) *Term { return &Term{Op: "and", Args: []*Term{a, b}, Bool: true} }
+func tOr(a, b *Term) *Term  { return &Term{Op: "or", Args: []*Term{a, b}, Bool: true} }
 func tIte(c, a, b *Term) *Term {
 	return &Term{Op: "ite", Args: []*Term{c, a, b}, Num: a.Num || b.Num, Bool: a.Bool && b.Bool, Str: a.Str && b.Str}
 }
